@@ -913,9 +913,9 @@ class TTNS(TTNBase):
             ttno = TTNO(self.basis, ttno)
 
         assert bra is None  # not implemented yet
-        basis_node = TreeNodeBasis([BasisDummy("expectation dummy")])
-        basis_node_ttns = basis_node
-        basis_node_ttno = basis_node.copy()
+        # the scratch parent carries as many quantum numbers as the tree it is attached to
+        basis_node_ttns = TreeNodeBasis([BasisDummy("expectation dummy", sigmaqn=[[0] * self.basis.qn_size])])
+        basis_node_ttno = TreeNodeBasis([BasisDummy("expectation dummy", sigmaqn=[[0] * ttno.basis.qn_size])])
         basis_node_ttns.add_child(self.basis.root.copy())
         basis_node_ttno.add_child(ttno.basis.root.copy())
         basis_tree_ttns = BasisTree(basis_node_ttns)
